@@ -184,6 +184,10 @@ pub fn gen_legs(rng: &mut Rng, case: &CtxCase) -> Vec<Leg> {
 }
 
 pub fn check_case(case: &CtxCase, nuls: &[usize], legs: &[Leg], rep: &mut Report) {
+    {
+        let conv: Vec<u8> = case.input.iter().map(|&b| if b == 0 { b'\n' } else { b }).collect();
+        crate::report::set_engine_probe(&[case.pattern.clone()], &case.flags(false), &[&case.input, &conv]);
+    }
     rep.evaluations += 1;
     let first_nul = match case.input.iter().position(|&b| b == 0) {
         Some(n) => n as u64,
